@@ -1,6 +1,6 @@
 """C07 — Only legal Hamiltonian terms with positive weight are ever stored."""
 from checks import extra_audits
-LEAN_TARGETS = ["QmcProps.C07", "drv_c06"]
+LEAN_TARGETS = ["QmcProps.C07", "drv_c06", "drv_c07"]
 BINS = ["c06"]
 
 THEOREMS = [
@@ -30,6 +30,8 @@ THEOREMS = [
     "ising_swap_legal",
     "ising_swap_legal_no_field_ops",
     "ising_field_op_illegal_without_field",
+    "swapGuard_accepts_zero_field_witness",
+    "swapGuard_witness_legal_then_illegal",
 ]
 
 RULE = ("same harness as C06 (bin c06, driver drv_c06), seeds shifted so the two checks see different walks: after every single public "
@@ -45,6 +47,7 @@ RULE = ("same harness as C06 (bin c06, driver drv_c06), seeds shifted so the two
         "under loop updates; full two-/three-variable matrices symmetric except for one (idx, ~idx) pair placed in every quarter of the index range, "
         "with the gate oracle that no plain cluster update runs while a term is asymmetric (all 4^n entries compared). Serial tempering ladders mix a "
         "zero-field replica with field replicas of one sign (>= 30 rounds of [steps; tempering_step], every replica judged with its own Hamiltonian). "
+        "Mode swap-guard-witness: one fixed input reproducing known finding F25 (guard approves h = 0 with h != 0). "
         "Non-trivial = at least one operator before or after.")
 
 
@@ -57,4 +60,7 @@ def main(ck):
         ck.correspond("walk", "drv_c06", cases)
         cases = ck.harness("c06", ["f12"])
         ck.correspond("rvb-zero-word", "drv_c06", cases)
+        # fixed, seed-independent witness of finding F25 (can_swap_managers accepts h = 0 with h != 0): the
+        # oracle column FAILs on the unchanged library; known_findings.json turns it into KNOWN-FINDING
+        ck.correspond("swap-guard-witness", "drv_c07", ck.harness("c06", ["swapwit"]))
     return ck.finish(RULE)
